@@ -27,8 +27,21 @@ MOD = "typelib.graph"
 
 
 def graph_paths(prog: Program):
+    """The walk's paths, with the small private helpers of the module it calls read in place (`_evaluated(child)`,
+    `_cyclic_class_node(...)`); `_level` stays a call (rules name it)."""
+    import ast as _ast
+
     f = prog.function(f"{MOD}.get_type_graph")
-    return f, P.paths_of(prog, f)
+    ps = P.paths_of(prog, f)
+
+    def small(fi):
+        if fi.qualname in P.NOT_INLINED or fi.module is not f.module:
+            return False
+        return not any(isinstance(n, (_ast.For, _ast.While, _ast.Yield, _ast.YieldFrom)) for n in _ast.walk(fi.node))
+
+    if len(ps) <= 300:
+        ps = P.splice_helpers(prog, ps, only=small)
+    return f, ps
 
 
 def child_of(p):
